@@ -270,7 +270,7 @@ func GetAttr(v Value, attr Value, args ...Value) (Value, error) {
 	switch r.Kind() {
 	case reflect.Struct:
 		strval := CoerceString(attr)
-		retval = r.FieldByName(strval)
+		retval = fieldByName(r, strval)
 		if !retval.IsValid() || !retval.CanInterface() {
 			// No such field, or an unexported one (which cannot be read).
 			var err error
@@ -325,6 +325,25 @@ func GetAttr(v Value, attr Value, args ...Value) (Value, error) {
 		retval = res[0]
 	}
 	return retval.Interface(), nil
+}
+
+// fieldByName is r.FieldByName, except that a field promoted through an
+// embedded pointer that is nil is reported as missing instead of panicking.
+func fieldByName(r reflect.Value, name string) reflect.Value {
+	f, ok := r.Type().FieldByName(name)
+	if !ok {
+		return reflect.Value{}
+	}
+	for _, i := range f.Index {
+		if r.Kind() == reflect.Ptr {
+			if r.IsNil() {
+				return reflect.Value{}
+			}
+			r = r.Elem()
+		}
+		r = r.Field(i)
+	}
+	return r
 }
 
 // convertValue returns val as a reflect.Value usable where a value of type t
